@@ -34,7 +34,7 @@ func (ft *FT) typeExpr(fun ast.Expr) (Type, bool) {
 		if f.Obj != nil && f.Obj.Kind != ast.Typ {
 			return unknownT, false
 		}
-		if isBuiltinType(f.Name) && f.Obj == nil {
+		if isBuiltinType(f.Name) && f.Obj == nil && !ft.pk.declares(f.Name) {
 			return identT(f.Name), true
 		}
 		if _, ok := ft.pk.Types[f.Name]; ok {
@@ -54,7 +54,24 @@ func (ft *FT) typeExpr(fun ast.Expr) (Type, bool) {
 	return unknownT, false
 }
 
+// evalArgs evaluates the arguments of a call.  f(g()) with a multi-valued repo
+// function g passes ALL results of g, in order (ft.nres is the number of
+// results of the repo call that has just been evaluated, 1 otherwise).
 func (ft *FT) evalArgs(args []ast.Expr) []Val {
+	if len(args) == 1 {
+		if inner, ok := strip(args[0]).(*ast.CallExpr); ok {
+			vs := ft.evalCall(inner)
+			if n := ft.nres; n > 1 && n <= len(vs) {
+				ft.nres = 1
+				return vs[:n]
+			}
+			ft.nres = 1
+			if len(vs) == 0 {
+				return []Val{scalar(unknownT)}
+			}
+			return vs[:1]
+		}
+	}
 	out := make([]Val, len(args))
 	for i, a := range args {
 		out[i] = ft.eval(a)
@@ -63,12 +80,13 @@ func (ft *FT) evalArgs(args []ast.Expr) []Val {
 }
 
 func (ft *FT) evalCall(c *ast.CallExpr) []Val {
+	ft.nres = 1
 	if t, ok := ft.typeExpr(c.Fun); ok && len(c.Args) == 1 {
 		return []Val{ft.convert(c, t)}
 	}
 	switch f := strip(c.Fun).(type) {
 	case *ast.Ident:
-		if f.Obj == nil && isBuiltinFunc(f.Name) {
+		if f.Obj == nil && isBuiltinFunc(f.Name) && !ft.pk.declares(f.Name) {
 			return ft.builtin(c, f.Name)
 		}
 		if f.Obj == nil || f.Obj.Kind == ast.Fun {
@@ -85,7 +103,18 @@ func (ft *FT) evalCall(c *ast.CallExpr) []Val {
 					}
 				}
 				if sig, ok := libFuncs[k+"."+f.Sel.Name]; ok {
-					return ft.libCall(c, sig, "", unknownT, nil, ft.evalArgs(c.Args))
+					args := ft.evalArgs(c.Args)
+					switch k + "." + f.Sel.Name {
+					case "fmt.Sprintf", "fmt.Errorf": // call the String / Error methods of the operands (trust.go)
+						if ft.fmtOperands(c, args) {
+							return ft.unknownCall(args)
+						}
+					case "io.ReadFull": // r.Read is a dynamic call unless r is the library's rand.Reader
+						if len(args) == 0 || !args[0].Trusted {
+							return ft.unknownCall(args)
+						}
+					}
+					return ft.libCall(c, sig, "", unknownT, nil, args)
 				}
 				return ft.unknownCall(ft.evalArgs(c.Args))
 			}
@@ -134,9 +163,18 @@ func (ft *FT) builtin(c *ast.CallExpr, name string) []Val {
 		t := Type{E: c.Args[0], Pkg: ft.pk.Dir}
 		ft.evalArgs(c.Args[1:])
 		return []Val{{T: t, Pts: rs(ft.alloc(c))}}
-	case "len", "cap", "min", "max", "print", "println", "panic", "delete":
+	case "len", "cap", "min", "max", "print", "println", "panic":
 		for _, a := range ft.evalArgs(c.Args) {
 			ft.readVal(a)
+		}
+		return []Val{scalar(identT("int"))}
+	case "delete": // delete(m, k) removes an entry: a write to the map object
+		as := ft.evalArgs(c.Args)
+		for _, a := range as[1:] {
+			ft.readVal(a)
+		}
+		if len(as) > 0 {
+			ft.writeVal(as[0], "*")
 		}
 		return []Val{scalar(identT("int"))}
 	case "copy":
@@ -186,6 +224,13 @@ func (ft *FT) libCall(site ast.Node, sig libSig, fld string, recvT Type, recv Ro
 	switch sig.Eff {
 	case "W":
 		ft.writeRef(recv, fld)
+	case "W+01":
+		ft.writeRef(recv, fld)
+		for i, a := range args {
+			if i < 2 && !(a.NoRef && len(a.Pts) == 0) { // nil is allowed for x, y
+				ft.writeVal(a, "")
+			}
+		}
 	default:
 		if isMethod {
 			ft.readRef(recv)
@@ -209,7 +254,7 @@ func (ft *FT) libCall(site ast.Node, sig libSig, fld string, recvT Type, recv Ro
 			res.NoRef = args[0].NoRef
 		}
 	case "fresh", "fresh+arg0":
-		res = Val{T: t, Pts: rs(ft.alloc(site))}
+		res = Val{T: t, Pts: rs(ft.alloc(site)), Trusted: !isMethod}
 		if sig.Res == "fresh+arg0" && len(args) > 0 {
 			ft.writeVal(args[0], "")
 			res.Pts.addAll(args[0].Pts)
